@@ -48,3 +48,7 @@ Definition env_prelock_state_reads : N := 0.
    requested TryTransition *)
 Definition env_control_exits_before_fallback : N := 0.
 Definition env_control_ctx_uses_after_transition : N := 0.
+
+(* callbacks (of the four) in which the error of the negative-weight hook pass is overwritten or
+   dropped before it reaches e.Cancel *)
+Definition env_hook_errors_lost : N := 0.
